@@ -27,6 +27,7 @@ import (
 	"context"
 	"errors"
 	"fmt"
+	"hash/fnv"
 	"io"
 	"net"
 	"os"
@@ -273,6 +274,19 @@ type replFailEngine struct {
 	failed  int
 	slow    map[string]int           // key -> the next replicated apply of it sleeps that many ms (slowapply)
 	started map[string]chan struct{} // closed when that slow apply has begun
+	log     []string                 // every replicated operation this incarnation of the replica applied successfully, in order
+}
+
+func replOpTok(kind string, key, value []byte) string {
+	h := fnv.New64a()
+	h.Write(value)
+	return fmt.Sprintf("%s:%x:%d:%x", kind, key, len(value), h.Sum64())
+}
+
+func (f *replFailEngine) record(tok string) {
+	f.mu.Lock()
+	f.log = append(f.log, tok)
+	f.mu.Unlock()
 }
 
 // delay: see `slowapply` — keeps the replica's loop inside its apply handler for a while
@@ -308,14 +322,22 @@ func (f *replFailEngine) PutInternal(key, value []byte) error {
 	if f.trip(key) {
 		return errors.New("injected transient apply failure")
 	}
-	return f.EngineFacade.PutInternal(key, value)
+	err := f.EngineFacade.PutInternal(key, value)
+	if err == nil {
+		f.record(replOpTok("p", key, value))
+	}
+	return err
 }
 
 func (f *replFailEngine) DeleteInternal(key []byte) error {
 	if f.trip(key) {
 		return errors.New("injected transient apply failure")
 	}
-	return f.EngineFacade.DeleteInternal(key)
+	err := f.EngineFacade.DeleteInternal(key)
+	if err == nil {
+		f.record(replOpTok("d", key, nil))
+	}
+	return err
 }
 
 type replFaultClient struct {
@@ -348,6 +370,121 @@ type replWorld struct {
 	maxLatMs int64
 	loadKeys int
 	cause    string // diagnosis of the first blocked operation
+	// exactly-once observation: the primary's operations in log order, and the first replica incarnation whose apply log is
+	// not a subsequence of it (an operation applied twice, or out of order)
+	hist      []string
+	histMu    sync.Mutex
+	applyProb string
+	proxy     *replProxy
+}
+
+// replProxy: a TCP relay in front of the primary's replication listener (cfg proxy=1), so that the network between replica and
+// primary can be cut (`outage`): every relayed connection is closed and new ones are refused until the outage ends.
+type replProxy struct {
+	addr   string
+	target string
+	ln     net.Listener
+	mu     sync.Mutex
+	conns  map[net.Conn]bool
+	down   bool
+}
+
+func newReplProxy(target string) (*replProxy, error) {
+	addr := replFreePort()
+	ln, err := net.Listen("tcp", addr)
+	if err != nil {
+		return nil, err
+	}
+	p := &replProxy{addr: addr, target: target, ln: ln, conns: map[net.Conn]bool{}}
+	go func() {
+		for {
+			c, err := ln.Accept()
+			if err != nil {
+				return
+			}
+			p.mu.Lock()
+			down := p.down
+			p.mu.Unlock()
+			if down {
+				c.Close()
+				continue
+			}
+			u, err := net.DialTimeout("tcp", p.target, 2*time.Second)
+			if err != nil {
+				c.Close()
+				continue
+			}
+			p.mu.Lock()
+			p.conns[c], p.conns[u] = true, true
+			p.mu.Unlock()
+			go func() { io.Copy(u, c); u.Close(); c.Close() }()
+			go func() { io.Copy(c, u); u.Close(); c.Close() }()
+		}
+	}()
+	return p, nil
+}
+
+func (p *replProxy) cut(down bool) {
+	p.mu.Lock()
+	p.down = down
+	for c := range p.conns {
+		c.Close()
+	}
+	p.conns = map[net.Conn]bool{}
+	p.mu.Unlock()
+}
+
+func (w *replWorld) record(toks ...string) {
+	w.histMu.Lock()
+	w.hist = append(w.hist, toks...)
+	w.histMu.Unlock()
+}
+
+// applyCheck: the operations one incarnation of a replica applied must be a subsequence of the primary's log (each operation at
+// most once, in log order); gaps are not judged here (that is convergence). Returns "" or a description.
+func (w *replWorld) applyCheck(n *replNode) string {
+	if n == nil || n.fe == nil {
+		return ""
+	}
+	n.fe.mu.Lock()
+	log := append([]string(nil), n.fe.log...)
+	n.fe.mu.Unlock()
+	w.histMu.Lock()
+	hist := append([]string(nil), w.hist...)
+	w.histMu.Unlock()
+	// per key: writers may run concurrently (bgburst), so only the order of the operations on ONE key is determined by the script
+	keyOf := func(op string) string { return strings.SplitN(op, ":", 3)[1] }
+	hk := map[string][]string{}
+	for _, op := range hist {
+		hk[keyOf(op)] = append(hk[keyOf(op)], op)
+	}
+	pos := map[string]int{}
+	for i, op := range log {
+		k := keyOf(op)
+		h := hk[k]
+		j := pos[k]
+		for j < len(h) && h[j] != op {
+			j++
+		}
+		if j == len(h) {
+			first := -1
+			for x := 0; x < i; x++ {
+				if log[x] == op {
+					first = x
+					break
+				}
+			}
+			return fmt.Sprintf("%s:apply#%d=%s_not-in-log-order(same-operation-applied-before-at#%d,applied=%d,logged=%d)", n.name, i, op, first, len(log), len(hist))
+		}
+		pos[k] = j + 1
+	}
+	return ""
+}
+
+func (w *replWorld) noteApply(n *replNode) {
+	if p := w.applyCheck(n); p != "" && w.applyProb == "" {
+		w.applyProb = p
+	}
 }
 
 func (w *replWorld) cfg(key string, def int) int { return replCfgInt(w.cfgLine, key, def) }
@@ -417,6 +554,13 @@ func (w *replWorld) startPrimary() string {
 	}
 	n.mgr = m
 	w.prim = n
+	if w.cfg("proxy", 0) == 1 {
+		p, err := newReplProxy(n.addr)
+		if err != nil {
+			return "err proxy " + errTok(err)
+		}
+		w.proxy = p
+	}
 	// the listener is created in a goroutine: wait until it accepts
 	deadline := time.Now().Add(patience(5 * time.Second))
 	for time.Now().Before(deadline) {
@@ -449,7 +593,11 @@ func (w *replWorld) startReplica(name string) string {
 		n.arm = map[string]bool{}
 	}
 	n.fe = &replFailEngine{EngineFacade: e, armed: n.arm}
-	mc := &replication.ManagerConfig{Enabled: true, Mode: replication.ReplicationModeReplica, PrimaryAddr: w.prim.addr, ListenAddr: n.addr, ForceReadOnly: true}
+	paddr := w.prim.addr
+	if w.proxy != nil {
+		paddr = w.proxy.addr
+	}
+	mc := &replication.ManagerConfig{Enabled: true, Mode: replication.ReplicationModeReplica, PrimaryAddr: paddr, ListenAddr: n.addr, ForceReadOnly: true}
 	if !prod {
 		rc := replication.DefaultReplicaConfig()
 		rc.Connection.RetryBaseDelay = time.Duration(w.cfg("retry", 1000)) * time.Millisecond
@@ -477,6 +625,7 @@ func (w *replWorld) stopReplica(name string) string {
 		return "err not-running"
 	}
 	res := "ok"
+	w.noteApply(n)
 	done := make(chan struct{})
 	go func() { n.mgr.Stop(); close(done) }()
 	select {
@@ -596,7 +745,7 @@ func (w *replWorld) await(name string) string {
 		w.cause = replDiagnoseBlock()
 		return fmt.Sprintf("blocked op=bgburst cause=%s", w.cause)
 	}
-	bound := time.Duration(w.cfg("bound", 20000)) * time.Millisecond
+	bound := patience(time.Duration(w.cfg("bound", 20000)) * time.Millisecond)
 	stay := time.Duration(w.cfg("stay", 1500)) * time.Millisecond
 	start := time.Now()
 	pm, err := replScanAll(w.prim.eng)
@@ -623,7 +772,12 @@ func (w *replWorld) await(name string) string {
 				okSince = now
 			}
 			if now.Sub(okSince) >= stay {
-				return fmt.Sprintf("converged %d keys=%d primseq=%d applied=%d flaps=%d %s", okSince.Sub(start).Milliseconds(), len(pm), pseq, n.applied(), flaps, w.sym)
+				w.noteApply(n)
+				al := "ok"
+				if w.applyProb != "" {
+					al = w.applyProb
+				}
+				return fmt.Sprintf("converged %d keys=%d primseq=%d applied=%d flaps=%d %s applylog=%s", okSince.Sub(start).Milliseconds(), len(pm), pseq, n.applied(), flaps, w.sym, al)
 			}
 		} else {
 			if !okSince.IsZero() {
@@ -668,8 +822,13 @@ func (w *replWorld) await(name string) string {
 	case stale == 1 && rot > 0:
 		finding = "D30"
 	}
-	return fmt.Sprintf("diverged missing=%d wrong=%d extra=%d first=%s primseq=%d applied=%d txat=%d splitat=%d stale=%d rot=%d observed=%d startseq=%d lastack=%d state=%s flaps=%d %s finding=%s",
-		mi, wr, ex, first, pseq, applied, txat, splitat, stale, rot, pv.observedSeq, startSeq, lastAck, state, flaps, w.sym, finding)
+	w.noteApply(n)
+	al := "ok"
+	if w.applyProb != "" {
+		al = w.applyProb
+	}
+	return fmt.Sprintf("diverged missing=%d wrong=%d extra=%d first=%s primseq=%d applied=%d txat=%d splitat=%d stale=%d rot=%d observed=%d startseq=%d lastack=%d state=%s flaps=%d %s finding=%s applylog=%s",
+		mi, wr, ex, first, pseq, applied, txat, splitat, stale, rot, pv.observedSeq, startSeq, lastAck, state, flaps, w.sym, finding, al)
 }
 
 // sharedSeqInWindow: the first sequence number carried by two or more of the first `limit` log entries with sequence >= from
@@ -747,16 +906,28 @@ func (w *replWorld) write(ws []string) error {
 	e := w.prim.eng
 	switch ws[0] {
 	case "put":
-		return e.Put(unhx(ws[1]), unhx(ws[2]))
+		err := e.Put(unhx(ws[1]), unhx(ws[2]))
+		if err == nil {
+			w.record(replOpTok("p", unhx(ws[1]), unhx(ws[2])))
+		}
+		return err
 	case "putbig": // putbig <key> <size>: a value of that many bytes (deterministic pattern)
 		n, _ := strconv.Atoi(ws[2])
 		v := make([]byte, n)
 		for i := range v {
 			v[i] = byte(i*7 + n)
 		}
-		return e.Put(unhx(ws[1]), v)
+		err := e.Put(unhx(ws[1]), v)
+		if err == nil {
+			w.record(replOpTok("p", unhx(ws[1]), v))
+		}
+		return err
 	case "del":
-		return e.Delete(unhx(ws[1]))
+		err := e.Delete(unhx(ws[1]))
+		if err == nil {
+			w.record(replOpTok("d", unhx(ws[1]), nil))
+		}
+		return err
 	case "tx":
 		tx, err := e.BeginTransaction(false)
 		if err != nil {
@@ -781,6 +952,16 @@ func (w *replWorld) write(ws []string) error {
 		if after := w.primSeq(); after == before+1 && len(ops) >= 2 {
 			w.txSeqs[after] = len(ops)
 		}
+		// the commit logs the buffered operations in key order
+		sorted := append([][3]string(nil), ops...)
+		sort.SliceStable(sorted, func(i, j int) bool { return bytes.Compare(unhx(sorted[i][1]), unhx(sorted[j][1])) < 0 })
+		for _, o := range sorted {
+			if o[0] == "d" {
+				w.record(replOpTok("d", unhx(o[1]), nil))
+			} else {
+				w.record(replOpTok("p", unhx(o[1]), unhx(o[2])))
+			}
+		}
 		return nil
 	case "burst":
 		n, _ := strconv.Atoi(ws[1])
@@ -790,6 +971,7 @@ func (w *replWorld) write(ws []string) error {
 			if err := e.Put(replBurstKey(start+i), replBurstVal(start+i, vlen)); err != nil {
 				return err
 			}
+			w.record(replOpTok("p", replBurstKey(start+i), replBurstVal(start+i, vlen)))
 		}
 		return nil
 	case "burstdel":
@@ -799,6 +981,7 @@ func (w *replWorld) write(ws []string) error {
 			if err := e.Delete(replBurstKey(start + i)); err != nil {
 				return err
 			}
+			w.record(replOpTok("d", replBurstKey(start+i), nil))
 		}
 		return nil
 	case "flush":
@@ -871,6 +1054,7 @@ func (w *replWorld) step(ws []string) (out string) {
 				e.Close()
 				return "err put " + errTok(err)
 			}
+			w.record(replOpTok("p", []byte(fmt.Sprintf("pre%05d", w.preloaded)), bytes.Repeat([]byte{byte('a' + w.preloaded%26)}, vlen)))
 		}
 		if ws[3] == "1" {
 			if err := e.FlushImMemTables(); err != nil {
@@ -881,6 +1065,15 @@ func (w *replWorld) step(ws []string) (out string) {
 		if err := e.Close(); err != nil {
 			return "err close " + errTok(err)
 		}
+		return "ok"
+	case "outage": // outage <ms>: the network between the replicas and the primary is cut (every connection closed, none accepted) for <ms>
+		if w.proxy == nil {
+			return "err no-proxy"
+		}
+		ms, _ := strconv.Atoi(ws[1])
+		w.proxy.cut(true)
+		time.Sleep(time.Duration(ms) * time.Millisecond)
+		w.proxy.cut(false)
 		return "ok"
 	case "slowapply": // slowapply <replica> <key> <ms>: the next replicated put of this key on that (running) replica takes <ms>
 		n := w.reps[ws[1]]
@@ -939,7 +1132,9 @@ func (w *replWorld) step(ws []string) (out string) {
 		go func() {
 			defer w.bg.Done()
 			for i := 0; i < n; i++ {
-				w.prim.eng.Put(replBurstKey(start+i), replBurstVal(start+i, vlen))
+				if w.prim.eng.Put(replBurstKey(start+i), replBurstVal(start+i, vlen)) == nil {
+					w.record(replOpTok("p", replBurstKey(start+i), replBurstVal(start+i, vlen)))
+				}
 				if i < n-8 { // the tail is written back to back
 					time.Sleep(time.Duration(gap) * time.Microsecond)
 				}
@@ -1409,7 +1604,7 @@ func replGenTx(g *gen, w *bufio.Writer, m int) {
 	fmt.Fprintln(w, strings.Join(parts, " "))
 }
 
-var replClassesQuick = []string{"after", "before", "during", "restart", "stopstorm", "stopapply", "preflush", "two", "tx1", "prod", "txmulti", "rotate", "onelate", "cleancatchup", "cleanpush", "sustained", "txcut", "bigvalues", "applyfail", "bigvalues"}
+var replClassesQuick = []string{"after", "before", "during", "restart", "outage", "stopstorm", "stopapply", "preflush", "two", "tx1", "prod", "txmulti", "rotate", "onelate", "cleancatchup", "cleanpush", "sustained", "txcut", "bigvalues", "applyfail", "bigvalues"}
 var replClassesThorough = append(append([]string{}, replClassesQuick...), "after", "before", "during", "restart", "txmulti", "rotatemem", "txsplit", "mixed")
 
 func genRepl(g *gen, n int, tier string, w *bufio.Writer) {
@@ -1541,6 +1736,18 @@ func genReplCase(g *gen, w *bufio.Writer, class string, big bool) {
 		fmt.Fprintln(w, "join a")
 		fmt.Fprintln(w, "await a")
 		replGenMixedOps(g, w, 5+g.intn(20), true)
+		fmt.Fprintln(w, "await a")
+	case "outage": // the network between replica and primary drops while the replica holds applied entries (a relay in front of the
+		// primary closes every connection and refuses new ones for a while); more writes during and after; every operation is
+		// applied once, in order, and the replica converges
+		hdr("any", "proxy=1")
+		fmt.Fprintln(w, "join a")
+		replGenMixedOps(g, w, 20+g.intn(40), true)
+		fmt.Fprintln(w, "await a")
+		fmt.Fprintf(w, "outage %d\n", g.pick(50, 300, 1200))
+		replGenMixedOps(g, w, 10+g.intn(30), true)
+		fmt.Fprintln(w, "await a")
+		fmt.Fprintf(w, "outage %d\n", g.pick(50, 300))
 		fmt.Fprintln(w, "await a")
 	case "stopapply": // the replica is stopped exactly while its loop is inside the apply handler (a slow apply), then started again
 		hdr("converge", "")
